@@ -29,8 +29,9 @@ inductive Frag : Node → Prop
   | number (n : Node) (t : Tok) (ht : n.tok = some t) (h : n.name = "number") : Frag n
   | rawString (n : Node) (t : Tok) (ht : n.tok = some t) (h : n.name = "string") (hr : t.allowEscapes = false) : Frag n
   | unary (n : Node) (t : Tok) (c : Node) (ht : n.tok = some t)
-      (h : n.name = "plus" ∨ n.name = "minus" ∨ n.name = "not" ∨ n.name = "guard")
+      (h : n.name = "plus" ∨ n.name = "minus" ∨ n.name = "not")
       (hc : n.children = [some c]) (fc : Frag c) : Frag n
+  | guardN (n c : Node) (h : n.name = "guard") (hc : n.children = [some c]) (fc : Frag c) : Frag n
   | binary (n : Node) (t : Tok) (a b : Node) (ht : n.tok = some t)
       (h : n.name = "plus" ∨ n.name = "minus" ∨ n.name = "times" ∨ n.name = "div" ∨ n.name = "divint" ∨
            n.name = "modint" ∨ n.name = "and" ∨ n.name = "or" ∨ n.name = "==" ∨ n.name = "!=" ∨
@@ -40,10 +41,11 @@ inductive Frag : Node → Prop
   | signal (n : Node) (t : Tok) (ht : n.tok = some t) (h : n.name = "break" ∨ n.name = "continue") : Frag n
   | ret0 (n : Node) (t : Tok) (ht : n.tok = some t) (h : n.name = "return") (hc : n.children = []) : Frag n
   | ret1 (n : Node) (t : Tok) (c : Node) (ht : n.tok = some t) (h : n.name = "return") (hc : n.children = [some c]) (fc : Frag c) : Frag n
-  | statements (n : Node) (t : Tok) (kids : List Node) (ht : n.tok = some t) (h : n.name = "statements")
+  | statements (n : Node) (kids : List Node) (h : n.name = "statements")
       (hc : n.children = kids.map some) (hk : ∀ c, c ∈ kids → Frag c) : Frag n
   | list (n : Node) (t : Tok) (kids : List Node) (ht : n.tok = some t) (h : n.name = "list")
-      (hc : n.children = kids.map some) (hk : ∀ c, c ∈ kids → Frag c) : Frag n
+      (hc : n.children = kids.map some) (hk : ∀ c, c ∈ kids → Frag c)
+      (hks : ∀ c, c ∈ kids → c.name ≠ "statements") (hkg : ∀ c, c ∈ kids → c.name ≠ "guard") : Frag n
   | map (n : Node) (t : Tok) (kids : List Node) (ht : n.tok = some t) (h : n.name = "map")
       (hc : n.children = kids.map some) (hk : ∀ c, c ∈ kids → FragEntry c) : Frag n
   | ident (n : Node) (t : Tok) (kids : List Node) (ht : n.tok = some t) (h : n.name = "identifier")
@@ -59,7 +61,7 @@ inductive Frag : Node → Prop
       (hc : n.children = [some c0, some body]) (f0 : Frag c0) (fb : Frag body) : Frag n
   | istring (n : Node) (t : Tok) (ht : n.tok = some t) (h : n.name = "string") : Frag n
   | asN (n : Node) (t : Tok) (v : Node) (ht : n.tok = some t) (h : n.name = "as") (hc : n.children = [some v])
-      (fv : Frag v) : Frag n
+      (fv : Frag v) (hvs : v.name ≠ "statements") (hvg : v.name ≠ "guard") : Frag n
   | tryN (n : Node) (t : Tok) (body : Node) (clauses : List Node) (ht : n.tok = some t) (h : n.name = "try")
       (hc : n.children = some body :: clauses.map some) (fb : Frag body) (hbn : body.name ≠ "finally")
       (hcl : ∀ c, c ∈ clauses → Clause c) : Frag n
@@ -92,7 +94,8 @@ inductive Param : Node → Prop
     block, anything else (ignored by the evaluator) -/
 inductive Clause : Node → Prop
   | exc (c : Node) (t : Tok) (kids : List Node) (hn : c.name = "except") (ht : c.tok = some t)
-      (hc : c.children = kids.map some) (hne : kids ≠ []) (hk : ∀ k, k ∈ kids → Frag k) : Clause c
+      (hc : c.children = kids.map some) (hne : kids ≠ []) (hk : ∀ k, k ∈ kids → Frag k)
+      (hfirst : ∀ k0 k1 rest, kids = k0 :: k1 :: rest → k0.name ≠ "statements" ∧ k0.name ≠ "guard") : Clause c
   | blk (c : Node) (t : Tok) (b : Node) (hn : c.name = "otherwise" ∨ c.name = "finally") (ht : c.tok = some t)
       (hc : c.children = [some b]) (fb : Frag b) : Clause c
   | other (c : Node) (hn : c.name ≠ "except" ∧ c.name ≠ "otherwise" ∧ c.name ≠ "finally") : Clause c
@@ -391,8 +394,10 @@ macro_rules | `(tactic| np_lem) => `(tactic| exact goInt_np _)
 theorem numberOf_np (t : Tok) : NP (numberOf t) := by unfold numberOf; np
 macro_rules | `(tactic| np_lem) => `(tactic| exact numberOf_np _)
 
-theorem Frag.tok {n : Node} (h : Frag n) : ∃ t, n.tok = some t := by
-  cases h <;> exact ⟨_, by assumption⟩
+/-- every node of the fragment carries a token, except the two kinds the parser builds without one
+    (`statements`, `guard`; `params funccall compaccess` are not `Frag` nodes but links / parameter lists) -/
+theorem Frag.tok {n : Node} (h : Frag n) (hs : n.name ≠ "statements") (hg : n.name ≠ "guard") : ∃ t, n.tok = some t := by
+  cases h <;> first | exact ⟨_, by assumption⟩ | simp_all
 theorem Frag.ident_inv {n : Node} (h : Frag n) (hn : n.name = "identifier") :
     ∃ (t : Tok) (kids : List Node), n.tok = some t ∧ n.children = kids.map some ∧ ∀ c, c ∈ kids → Link c := by
   cases h <;> first | exact ⟨_, _, by assumption, by assumption, by assumption⟩ | simp_all
@@ -406,15 +411,17 @@ def AccQ (r : Option Node × List Nat) : Prop := ∀ cn, r.1 = some cn → Good 
 def AccP (st : Option (Option Node × List Nat) × List Nat × Nat) : Prop := ∀ r, st.1 = some r → AccQ r
 
 theorem Frag.list_inv {n : Node} (h : Frag n) (hn : n.name = "list") :
-    ∃ kids : List Node, n.children = kids.map some ∧ ∀ c, c ∈ kids → Frag c := by
-  cases h <;> simp_all
-  all_goals exact ⟨_, rfl, by assumption⟩
+    ∃ kids : List Node, n.children = kids.map some ∧ (∀ c, c ∈ kids → Frag c) ∧
+      (∀ c, c ∈ kids → c.name ≠ "statements") ∧ (∀ c, c ∈ kids → c.name ≠ "guard") := by
+  cases h <;> first | exact ⟨_, by assumption, by assumption, by assumption, by assumption⟩ | simp_all
 theorem Frag.let_inv {n : Node} (h : Frag n) (hn : n.name = "let") : ∃ lv, n.children = [some lv] ∧ Frag lv := by
   cases h <;> simp_all
-theorem tokOf_np (n : Node) (h : Frag n) : NP (tokOf n) := by
-  obtain ⟨t, ht⟩ := Frag.tok h
+theorem tokOf_np (n : Node) (h : Frag n) (hs : n.name ≠ "statements") (hg : n.name ≠ "guard") : NP (tokOf n) := by
+  obtain ⟨t, ht⟩ := Frag.tok h hs hg
   simp [tokOf, ht]; np
-macro_rules | `(tactic| np_lem) => `(tactic| exact tokOf_np _ (by solve_by_elim (maxDepth := 4)))
+macro_rules | `(tactic| np_lem) => `(tactic| exact tokOf_np _ (by solve_by_elim (maxDepth := 4))
+  (by first | solve_by_elim (maxDepth := 3) | (simp only [‹_ = "identifier"›]; decide))
+  (by first | solve_by_elim (maxDepth := 3) | (simp only [‹_ = "identifier"›]; decide)))
 
 /-! ### control-flow combinators -/
 theorem ifChain_np : ∀ (l : List (M Val × M Val)), (∀ p, p ∈ l → NP p.1 ∧ NP p.2) → NP (ifChain l) := by
@@ -549,8 +556,9 @@ theorem Frag.in_inv {n : Node} (h : Frag n) (hn : n.name = "in") :
     ∃ a b : Node, n.children = [some a, some b] ∧ Frag a ∧ Frag b := by
   cases h <;> first | exact ⟨_, _, by assumption, by assumption, by assumption⟩ | simp_all
 
-theorem Frag.as_inv {n : Node} (h : Frag n) (hn : n.name = "as") : ∃ v : Node, n.children = [some v] ∧ Frag v := by
-  cases h <;> first | exact ⟨_, by assumption, by assumption⟩ | simp_all
+theorem Frag.as_inv {n : Node} (h : Frag n) (hn : n.name = "as") :
+    ∃ v : Node, n.children = [some v] ∧ Frag v ∧ v.name ≠ "statements" ∧ v.name ≠ "guard" := by
+  cases h <;> first | exact ⟨_, by assumption, by assumption, by assumption, by assumption⟩ | simp_all
 
 theorem getLast?_cons_append_singleton {α : Type} (a : α) (l : List α) (x : α) : (a :: (l ++ [x])).getLast? = some x := by
   induction l generalizing a with
@@ -894,7 +902,7 @@ macro "assign_tail " fl':term : tactic => `(tactic| (
     · rename_i hid; exact NPQ.pure _ _ (by intro b hb; simp at hb; subst hb; exact ⟨$fl', hid⟩)
     · split
       · rename_i hli
-        obtain ⟨lk, hlk, hlf⟩ := Frag.list_inv $fl' hli
+        obtain ⟨lk, hlk, hlf, _, _⟩ := Frag.list_inv $fl' hli
         rw [hlk]
         refine NPQ.mapMQ _ _ _ (fun a ha => ?_)
         obtain ⟨c, hcm, rfl⟩ := List.mem_map.mp ha
@@ -972,7 +980,8 @@ theorem evalIdent_any (sc : Nat) (n : Node) (t : Tok) (kids : List Node) (ht : n
   | zero => unfold evalIdent; np
   | succ g' => exact evalIdent_step g' (fun g'' h => ihs g'' (by omega)) sc n t kids ht hc hl (hcall g' (by omega))
 theorem exceptHandler_step (sc : Nat) (c : Node) (t : Tok) (kids : List Node) (ht : c.tok = some t)
-    (hc : c.children = kids.map some) (hne : kids ≠ []) (hk : ∀ k, k ∈ kids → Frag k) (e : Sig) :
+    (hc : c.children = kids.map some) (hne : kids ≠ []) (hk : ∀ k, k ∈ kids → Frag k)
+    (hfirst : ∀ k0 k1 rest, kids = k0 :: k1 :: rest → k0.name ≠ "statements" ∧ k0.name ≠ "guard") (e : Sig) :
     NP (exceptHandler (g+1) sc c e) := by
   have ih := ihs g (Nat.le_refl g)
   have hsn := scopeName_np c t ht
@@ -984,11 +993,13 @@ theorem exceptHandler_step (sc : Nat) (c : Node) (t : Tok) (kids : List Node) (h
   | nil => simp [hc, child]; np
   | cons k1 krest =>
     have f1 : Frag k1 := hk k1 (by simp)
+    have h0s := (hfirst k0 k1 krest rfl).1
+    have h0g := (hfirst k0 k1 krest rfl).2
     simp [hc, child]
     split
     · -- binding form `except e { }` / `except as e { }`
       by_cases has : k0.name = "as"
-      · obtain ⟨v, hv, fv⟩ := Frag.as_inv f0 has
+      · obtain ⟨v, hv, fv, hvs, hvg⟩ := Frag.as_inv f0 has
         simp [has, hv, child]; np
       · simp [has]; np
     · -- typed clause
@@ -1020,9 +1031,9 @@ theorem exceptHandler_step (sc : Nat) (c : Node) (t : Tok) (kids : List Node) (h
             split
             · rename_i hcond
               have has : a.name = "as" := hcond.1
-              obtain ⟨v, hv, fv⟩ := Frag.as_inv fa has
+              obtain ⟨v, hv, fv, hvs, hvg⟩ := Frag.as_inv fa has
               simp [hv, child]
-              refine NPQ.bind _ _ (fun _ => True) _ (tokOf_np v fv) (fun _ _ => NPQ.pure _ _ fst)
+              refine NPQ.bind _ _ (fun _ => True) _ (tokOf_np v fv hvs hvg) (fun _ _ => NPQ.pure _ _ fst)
             · np
           · np
         · refine NPQ.bind _ _ (fun _ => True) _ (typedMatch_np _ _ _ (by
@@ -1031,11 +1042,12 @@ theorem exceptHandler_step (sc : Nat) (c : Node) (t : Tok) (kids : List Node) (h
             exact ih sc ch (htake ch hch))) (fun _ _ => ?_)
           np
 theorem exceptHandler_any (sc : Nat) (c : Node) (t : Tok) (kids : List Node) (ht : c.tok = some t)
-    (hc : c.children = kids.map some) (hne : kids ≠ []) (hk : ∀ k, k ∈ kids → Frag k) (e : Sig) :
+    (hc : c.children = kids.map some) (hne : kids ≠ []) (hk : ∀ k, k ∈ kids → Frag k)
+    (hfirst : ∀ k0 k1 rest, kids = k0 :: k1 :: rest → k0.name ≠ "statements" ∧ k0.name ≠ "guard") (e : Sig) :
     NP (exceptHandler g sc c e) := by
   cases g with
   | zero => unfold exceptHandler; np
-  | succ g' => exact exceptHandler_step g' (fun g'' h => ihs g'' (by omega)) sc c t kids ht hc hne hk e
+  | succ g' => exact exceptHandler_step g' (fun g'' h => ihs g'' (by omega)) sc c t kids ht hc hne hk hfirst e
 theorem evalTry_step (sc : Nat) (n : Node) (t : Tok) (body : Node) (clauses : List Node) (ht : n.tok = some t)
     (hc : n.children = some body :: clauses.map some) (fb : Frag body) (hbn : body.name ≠ "finally")
     (hcl : ∀ c, c ∈ clauses → Clause c) : NP (evalTry (g+1) sc n) := by
@@ -1052,7 +1064,7 @@ theorem evalTry_step (sc : Nat) (n : Node) (t : Tok) (body : Node) (clauses : Li
       refine NPQ.pure _ _ ?_
       intro hf
       cases hcl lc (by simp) with
-      | exc c t kids hn ht hc hne hk => simp_all
+      | exc c t kids hn ht hc hne hk hfirst => simp_all
       | blk c t b hn ht hc fb => exact ⟨t, b, ht, hc, fb⟩
       | other c hn => exact absurd hf hn.2.2
   · refine NPQ.bind _ _ (fun fin => ∀ fi, fin = some fi → NP fi) _ ?_ (fun fin hfin => ?_)
@@ -1080,7 +1092,7 @@ theorem evalTry_step (sc : Nat) (n : Node) (t : Tok) (body : Node) (clauses : Li
         · cases hha
           rename_i hex
           cases hcl c hcm with
-          | exc c t kids hn ht hc hne hk => exact exceptHandler_any g ihs sc c t kids ht hc hne hk e
+          | exc c t kids hn ht hc hne hk hfirst => exact exceptHandler_any g ihs sc c t kids ht hc hne hk hfirst e
           | blk c t b hn ht hc fb => simp_all
           | other c hn => simp_all
         · cases hha
@@ -1096,7 +1108,7 @@ theorem evalTry_step (sc : Nat) (n : Node) (t : Tok) (body : Node) (clauses : Li
             have := List.find?_some heq
             simpa using this
           cases hcl o' hm with
-          | exc c t kids hn ht hc hne hk => simp_all
+          | exc c t kids hn ht hc hne hk hfirst => simp_all
           | blk c t b hn ht hc' fb' =>
             refine NPQ.bind _ _ (fun _ => True) _ (scopeName_np o' t ht) (fun _ _ => ?_)
             refine NPQ.bind _ _ (fun _ => True) _ (newChild_np _ _) (fun ovs _ => ?_)
@@ -1245,11 +1257,13 @@ theorem evalLoop_step (sc : Nat) (n c0 body : Node) (t : Tok) (ht : n.tok = some
       · np
       · split
         · rename_i hli
-          obtain ⟨lk, hlk, hlf⟩ := Frag.list_inv fiv hli
+          obtain ⟨lk, hlk, hlf, hls, hlg⟩ := Frag.list_inv fiv hli
           rw [hlk]
           refine NPQ.mapM _ _ (fun a ha => ?_)
           obtain ⟨c, hcm, rfl⟩ := List.mem_map.mp ha
           have fc := hlf c hcm
+          have fcs := hls c hcm
+          have fcg := hlg c hcm
           dsimp only []; np
         · np
     · refine NPQ.bind _ _ (fun _ => True) _ (scopeName_np n t ht) (fun _ _ => ?_)
@@ -1311,11 +1325,11 @@ theorem eval_frag_np : ∀ (f sc : Nat) (n : Node), Frag n → NP (eval f sc n) 
       | number n t ht h => unfold eval; simp [h, tokOf, ht]; np
       | rawString n t ht h hr => unfold eval; simp [h, tokOf, ht, hr]; np
       | unary n t c ht h hc fc =>
-        rcases h with h | h | h | h
+        rcases h with h | h | h
         · unfold eval; simp [h, hc]; exact numVal_any f ihs sc n c hc fc _
         · unfold eval; simp [h, hc]; exact numVal_any f ihs sc n c hc fc _
         · unfold eval; simp [h, hc, child]; np
-        · unfold eval; simp [h, hc, child]; np
+      | guardN n c h hc fc => unfold eval; simp [h, hc, child]; np
       | binary n t a b ht h hc fa fb =>
         rcases h with h | h | h | h | h | h | h | h | h | h | h | h | h | h | h | h | h | h
         · unfold eval; simp [h, hc]; exact numOp_any f ihs sc n a b hc fa fb _
@@ -1340,8 +1354,8 @@ theorem eval_frag_np : ∀ (f sc : Nat) (n : Node), Frag n → NP (eval f sc n) 
       | signal n t ht h => rcases h with h | h <;> (unfold eval; simp [h]; np)
       | ret0 n t ht h hc => unfold eval; simp [h, hc]; np
       | ret1 n t c ht h hc fc => unfold eval; simp [h, hc, child]; np
-      | statements n t kids ht h hc hk => unfold eval; simp [h, hc]; np
-      | list n t kids ht h hc hk => unfold eval; simp [h, hc]; np
+      | statements n kids h hc hk => unfold eval; simp [h, hc]; np
+      | list n t kids ht h hc hk hks hkg => unfold eval; simp [h, hc]; np
       | map n t kids ht h hc hk =>
         unfold eval; simp [h, hc]
         refine NPQ.bind _ _ (fun _ => True) _ ?_ (fun _ _ => by np)
@@ -1366,7 +1380,7 @@ theorem eval_frag_np : ∀ (f sc : Nat) (n : Node), Frag n → NP (eval f sc n) 
         · np
         · split
           · rename_i hl
-            obtain ⟨kids, hk, hf⟩ := Frag.list_inv fl hl
+            obtain ⟨kids, hk, hf, hfs, hfg⟩ := Frag.list_inv fl hl
             simp [hk]; np
           · np
       | ifN n t pairs ht h hc hg hb =>
@@ -1385,7 +1399,7 @@ theorem eval_frag_np : ∀ (f sc : Nat) (n : Node), Frag n → NP (eval f sc n) 
         split
         · exact NPQ.map _ _ (interpolate_any f ihs sc n t ht f (by omega) _)
         · np
-      | asN n t v ht h hc fv => unfold eval; simp [h]; np
+      | asN n t v ht h hc fv hvs hvg => unfold eval; simp [h]; np
       | tryN n t body clauses ht h hc fb hbn hcl =>
         unfold eval; simp [h]
         cases f with
@@ -1449,12 +1463,12 @@ def fragExample : Node :=
 theorem fragExample_ok : Frag fragExample := by
   refine Frag.assign _ (exTok []) (exNode "identifier" [97] []) _ rfl rfl rfl
     (Frag.ident _ (exTok [97]) [] rfl rfl rfl (by intro c hc; cases hc)) ?_
-  refine Frag.list _ (exTok []) [_, _] rfl rfl rfl ?_
+  refine Frag.list _ (exTok []) [_, _] rfl rfl rfl ?_ (by intro c hc; simp at hc; rcases hc with rfl | rfl <;> decide) (by intro c hc; simp at hc; rcases hc with rfl | rfl <;> decide)
   intro c hc
   simp only [List.mem_cons, List.not_mem_nil, or_false] at hc
   rcases hc with hc | hc
   · subst hc
-    exact Frag.unary _ (exTok []) _ rfl (Or.inr (Or.inr (Or.inl rfl))) rfl
+    exact Frag.unary _ (exTok []) _ rfl (Or.inr (Or.inr rfl)) rfl
       (Frag.binary _ (exTok [37]) _ _ rfl (Or.inr (Or.inr (Or.inr (Or.inr (Or.inr (Or.inl rfl)))))) rfl
         (Frag.number _ (exTok [53]) rfl rfl) (Frag.const _ (exTok []) rfl (Or.inl rfl)))
   · subst hc
